@@ -6,6 +6,7 @@ import (
 	"errors"
 	"fmt"
 	"io"
+	"math"
 	"reflect"
 	"time"
 	"unicode/utf8"
@@ -448,6 +449,11 @@ func getTypeConverter(typ reflect.Type) (TypeConverter, error) {
 	return converter, nil
 }
 
+// intOutOfRange is the error for an integer that the target Go type cannot hold.
+func intOutOfRange(v int64, typ string) error {
+	return errz.TypeErrorf("type error: value %d out of range for %s", v, typ)
+}
+
 // BoolConverter converts between bool and *Bool.
 type BoolConverter struct{}
 
@@ -531,8 +537,14 @@ type Int8Converter struct{}
 func (c *Int8Converter) To(obj Object) (interface{}, error) {
 	switch obj := obj.(type) {
 	case *Byte:
+		if obj.value > math.MaxInt8 {
+			return nil, intOutOfRange(int64(obj.value), "int8")
+		}
 		return int8(obj.value), nil
 	case *Int:
+		if obj.value < math.MinInt8 || obj.value > math.MaxInt8 {
+			return nil, intOutOfRange(obj.value, "int8")
+		}
 		return int8(obj.value), nil
 	case *Float:
 		return int8(obj.value), nil
@@ -553,6 +565,9 @@ func (c *Int16Converter) To(obj Object) (interface{}, error) {
 	case *Byte:
 		return int16(obj.value), nil
 	case *Int:
+		if obj.value < math.MinInt16 || obj.value > math.MaxInt16 {
+			return nil, intOutOfRange(obj.value, "int16")
+		}
 		return int16(obj.value), nil
 	case *Float:
 		return int16(obj.value), nil
@@ -573,6 +588,9 @@ func (c *Int32Converter) To(obj Object) (interface{}, error) {
 	case *Byte:
 		return int32(obj.value), nil
 	case *Int:
+		if obj.value < math.MinInt32 || obj.value > math.MaxInt32 {
+			return nil, intOutOfRange(obj.value, "int32")
+		}
 		return int32(obj.value), nil
 	case *Float:
 		return int32(obj.value), nil
@@ -613,6 +631,9 @@ func (c *UintConverter) To(obj Object) (interface{}, error) {
 	case *Byte:
 		return uint(obj.value), nil
 	case *Int:
+		if obj.value < 0 {
+			return nil, intOutOfRange(obj.value, "uint")
+		}
 		return uint(obj.value), nil
 	case *Float:
 		return uint(obj.value), nil
@@ -622,7 +643,11 @@ func (c *UintConverter) To(obj Object) (interface{}, error) {
 }
 
 func (c *UintConverter) From(obj interface{}) (Object, error) {
-	return NewInt(int64(obj.(uint))), nil
+	v := obj.(uint)
+	if uint64(v) > math.MaxInt64 {
+		return nil, errz.TypeErrorf("type error: value %d out of range for int", v)
+	}
+	return NewInt(int64(v)), nil
 }
 
 // Uint8Converter converts between uint8 and *Int.
@@ -633,6 +658,9 @@ func (c *Uint8Converter) To(obj Object) (interface{}, error) {
 	case *Byte:
 		return uint8(obj.value), nil
 	case *Int:
+		if obj.value < 0 || obj.value > math.MaxUint8 {
+			return nil, intOutOfRange(obj.value, "uint8")
+		}
 		return uint8(obj.value), nil
 	case *Float:
 		return uint8(obj.value), nil
@@ -653,6 +681,9 @@ func (c *Uint16Converter) To(obj Object) (interface{}, error) {
 	case *Byte:
 		return uint16(obj.value), nil
 	case *Int:
+		if obj.value < 0 || obj.value > math.MaxUint16 {
+			return nil, intOutOfRange(obj.value, "uint16")
+		}
 		return uint16(obj.value), nil
 	case *Float:
 		return uint16(obj.value), nil
@@ -673,6 +704,9 @@ func (c *Uint32Converter) To(obj Object) (interface{}, error) {
 	case *Byte:
 		return uint32(obj.value), nil
 	case *Int:
+		if obj.value < 0 || obj.value > math.MaxUint32 {
+			return nil, intOutOfRange(obj.value, "uint32")
+		}
 		return uint32(obj.value), nil
 	case *Float:
 		return uint32(obj.value), nil
@@ -693,6 +727,9 @@ func (c *Uint64Converter) To(obj Object) (interface{}, error) {
 	case *Byte:
 		return uint64(obj.value), nil
 	case *Int:
+		if obj.value < 0 {
+			return nil, intOutOfRange(obj.value, "uint64")
+		}
 		return uint64(obj.value), nil
 	case *Float:
 		return uint64(obj.value), nil
@@ -702,7 +739,11 @@ func (c *Uint64Converter) To(obj Object) (interface{}, error) {
 }
 
 func (c *Uint64Converter) From(obj interface{}) (Object, error) {
-	return NewInt(int64(obj.(uint64))), nil
+	v := obj.(uint64)
+	if uint64(v) > math.MaxInt64 {
+		return nil, errz.TypeErrorf("type error: value %d out of range for int", v)
+	}
+	return NewInt(int64(v)), nil
 }
 
 // Float32Converter converts between float32 and *Float.
